@@ -17,6 +17,11 @@ FILES = "abcdefgh"
 
 # ---- C12 ------------------------------------------------------------------------------------------------
 
+# pins, checks and king steps onto attacked squares: many pseudo-legal moves that only the king filter refuses
+PIN_POSITIONS = [
+    "r3k2r/8/8/8/4q3/8/4B3/R3K2R w KQkq - 0 1", "4k3/8/8/8/1b6/8/3N4/4K3 w - - 0 1", "4k3/4r3/8/8/8/8/4R3/4K3 b - - 0 1",
+    "rnbqk1nr/pppp1ppp/8/4p3/1b1P4/2N5/PPP1PPPP/R1BQKBNR w KQkq - 2 3", "4k3/8/8/8/8/8/3p4/4K3 w - - 0 1", "8/8/8/2k5/4K3/8/8/3r4 w - - 0 1",
+]
 TEXT_POSITIONS = [
     positions.START,
     "r3k2r/p1ppqpb1/bn2pnp1/3PN3/1p2P3/2N2Q1p/PPPBBPPP/R3K2R w KQkq - 0 1",
@@ -115,9 +120,18 @@ def check_C12(chk):
     if status.get("engine"):
         eng = uci.Engine()
         try:
-            for f in fens[: (6 if chk.tier == "quick" else 30)]:
+            ufens = PIN_POSITIONS + fens[: (6 if chk.tier == "quick" else 30)]
+            spec.update(spec_positions(PIN_POSITIONS, "pins"))
+            xr = run_blocks(SPECDRIVER, [["# x%d" % i, "specplay  | " + f] for i, f in enumerate(ufens)])
+            exposing = {}
+            for i, f in enumerate(ufens):
+                ls = xr.get("x%d" % i, [])
+                exposing[f] = [m for m in (parse_kv(ls[0])[1].get("exposing", "") if ls else "").split(",") if m]
+            for f in ufens:
                 legal = sorted(legal_of(spec, f) or [])
-                sample = list(legal) + [rng.choice(strings) for _ in range(40)] + ["c2d3", "e1g1", "e1c1", "e8g8", "a7a8k", "a7a8"]
+                # (the moves that only the king filter refuses are the ones a lazily checked `position` would play)
+                sample = list(legal) + exposing.get(f, []) + [rng.choice(strings) for _ in range(40)] + ["c2d3", "e1g1", "e1c1", "e8g8", "a7a8k", "a7a8"]
+                uci_stats["exposing_moves"] = uci_stats.get("exposing_moves", 0) + len(exposing.get(f, []))
                 for s in sample:
                     eng.send("position fen %s moves %s" % (f, s))
                     eng.send("show")
@@ -418,17 +432,23 @@ def run_session(script, env, bound_infinite=True):
             tokens.append("I:" + tok)
             facts["sent"].append(text)
             eng.send(text)
-        # let everything finish: stop whatever still runs, then ask for readyok and quit
+        # let everything finish: stop whatever still runs, then ask for readyok and quit - unless the script itself ends in
+        # `quit` (sent while a search may still be running: the process has to leave all the same)
         absorb(eng.drain(0.05))
-        tokens.append("I:stop")
-        eng.send("stop")
-        tokens.append("I:isready")
-        eng.send("isready")
-        lines, ok = eng.read_until(lambda l: l == "readyok", 30)
-        absorb(lines)
-        facts["final_ready"] = ok
-        tokens.append("I:quit")
-        rc = eng.quit(10)
+        if script and script[-1][1] == "quit":
+            facts["final_ready"] = True
+            facts["quit_while_running"] = True
+            rc = eng.wait_exit(10)
+        else:
+            tokens.append("I:stop")
+            eng.send("stop")
+            tokens.append("I:isready")
+            eng.send("isready")
+            lines, ok = eng.read_until(lambda l: l == "readyok", 30)
+            absorb(lines)
+            facts["final_ready"] = ok
+            tokens.append("I:quit")
+            rc = eng.quit(10)
         facts["exit_code"] = rc
         absorb(eng.drain(0.05))
     finally:
@@ -488,6 +508,10 @@ def check_C14(chk):
     sessions.append(([("position startpos", "pos1", 0), ("go depth 2", "go0", 0), ("position startpos", "pos1", 150), ("go depth 1", "go0", 0)], {"VERIF_SLEEP_AFTER_BESTMOVE": "600", "VERIF_EVENTS": "1"}))
     sessions.append(([("position startpos", "pos1", 0), ("go movetime 1", "go1", 0), ("ucinewgame", "newgame", 60), ("isready", "isready", 0)], {"VERIF_SLEEP_SEARCH_THREAD_START": "300", "VERIF_EVENTS": "1"}))
 
+    # quit (and end of input) while a search that has no end of its own is running: the process must leave
+    for go in ("go infinite", "go depth 200"):
+        sessions.append(([(KIWI, "pos1", 0), (go, "go0", 0), ("isready", "isready", 150), ("quit", "quit", 100)], {"VERIF_EVENTS": "1"}))
+
     def work(item):
         sc, env = item
         try:
@@ -520,7 +544,7 @@ def check_C14(chk):
             bad = "the engine did not answer isready at the end of the session (wedged or dead)"
         elif facts.get("exit_code") != 0:
             bad = "the engine did not exit cleanly on quit (exit code %s)" % facts.get("exit_code")
-        elif nb != started:
+        elif nb != started and not facts.get("quit_while_running"):
             bad = "%d searches were started but %d bestmove lines were printed" % (started, nb)
         elif tokens.count("I:isready") != tokens.count("O:readyok"):
             bad = "%d isready commands but %d readyok answers" % (tokens.count("I:isready"), tokens.count("O:readyok"))
@@ -746,7 +770,9 @@ def mutate(fen, rng):
         return " ".join(fields[:cut]), "truncated"
     if kind == 12:
         if len(fields) >= 5:
-            fields[4] = rng.choice(["x", "-1", "1.5", "99", "", "0x"])
+            fields[4] = rng.choice(["x", "-1", "1.5", "99", "", "0x", "256", "300", "4000", "65536", "+3", "+0", "100"])
+            if len(fields) >= 6 and rng.chance(1, 2):
+                fields[5] = rng.choice(["256", "999", "5949", "70000", "+30", "1", "x", "-2"])
         return " ".join(fields), "counter"
     if kind == 13:
         return " ".join(fields + [rng.choice(["7", "x", "moves"])]), "extra field"
